@@ -622,6 +622,20 @@ func (fx *FX) takeEdge(fr *frame, loops map[*ssa.BasicBlock]*loopInfo, back map[
 		fx.closeLoop(fr, loops[to], from, st)
 		return
 	}
+	// leaving a loop: exit lemmas (proved on the exit edge, then available after the loop)
+	for _, li := range loops {
+		if from == li.header && !li.blocks[to] {
+			if cls := fx.loopClauses(fr, li, "exit"); len(cls) > 0 {
+				env := fx.newEnv(fr, st)
+				fx.addLoopNames(fr, env, li.header)
+				for j, cl := range cls {
+					g := fx.evalBool(env, cl.Expr)
+					fx.oblige(st, "inv-keep", fmt.Sprintf("loop#%d.exit#%d%s", li.ord, j+1, lbl(cl)), cl.Text, g, from.Instrs[len(from.Instrs)-1].Pos(), cl.Props)
+					st.reach = fx.define("r_exit", And(st.reach, g))
+				}
+			}
+		}
+	}
 	edgeOut[[2]int{from.Index, to.Index}] = st
 }
 
